@@ -21,7 +21,7 @@ def builder_cases(cases_file, count, seed, exhaustive_small=True):
     slots = sorted(tpl)
     out = []
     def mk(seq, tag):
-        calls = [{"op": "b_new"}] + seq + [{"op": "b_build"}, {"op": "b_load"}]
+        calls = [{"op": "b_new", "default": len(seq) % 2 == 1}] + seq + [{"op": "b_build"}, {"op": "b_load"}]
         out.append(dict(id="bgen-%d-%d" % (seed, len(out)), mem=[], al=0, calls=calls,
                         desc=dict(area="bgen", kind=tag, slots=[c["slot"] for c in seq], seed=seed)))
     if exhaustive_small:
@@ -87,7 +87,7 @@ def session_cases(files, count, seed):
         for _ in range(rng.choice([0, 0, 1, 2])):
             s = rng.choice(["module", "smbios", "custom"] + slots)
             seq.insert(rng.randrange(len(seq) + 1), rng.choice(tpl[s]))
-        calls = [{"op": "b_new"}] + seq + [{"op": "b_build"}, {"op": "use_built", "which": "info"}, {"op": "load"},
+        calls = [{"op": "b_new", "default": len(seq) % 2 == 1}] + seq + [{"op": "b_build"}, {"op": "use_built", "which": "info"}, {"op": "load"},
                                           {"op": "tags", "it": 0}] + [{"op": "next", "it": 0}] * (len(seq) + 3)
         present = {c["slot"] for c in seq}
         for kind in sorted(present | set(rng.sample(sorted(reads), 3))):
